@@ -103,6 +103,77 @@ def run(ctx):
                 any("makeFilteredDirectoryContents(path, filters)" in t for t in reqs), "%s|listing-requested-with-filters" % task, "",
                 "the directory listing is not requested with the task's filters", s0)
 
+    # ------------------------------------------------------------------ a listing is looked at again in every build
+    rr = rep.rule("R-LISTING-RESCAN", "every rule whose task enumerates a directory is re-evaluated in each build: either its validity callback lists the "
+                                      "directory again and compares, or (no validity callback) its task unconditionally depends on the Stat key of the "
+                                      "directory, whose rule is never valid, and decides from that fresh value", floor=4)
+    lk = prog.fn("BuildSystemEngineDelegate::lookupRule")
+    pairs = {}
+    for n in lk.nodes:
+        if n.get("k") == "construct" and (n.get("fn") or "").endswith("BuildSystemRule::BuildSystemRule") and len(n.get("args", [])) >= 4:
+            a = arg_nodes(n)
+            task, valid = None, "null"
+            for x in a[2].walk():
+                if x.get("k") == "lambda":
+                    news = [y for y in prog.lambda_fn(x).nodes if y.get("k") == "new"]
+                    if news:
+                        task = news[0].tname("at").split("::")[-1]
+            for x in a[3].walk():
+                if x.get("k") == "lambda":
+                    cs = [c for c in prog.lambda_fn(x).calls() if (c.get("fn") or "").endswith("::isResultValid")]
+                    valid = (cs[0].get("fn") or "").split("::")[-2] if cs else "other"
+            if task:
+                pairs.setdefault(task, set()).add(valid)
+    enum_fns = [g for g in prog.functions.values() if relpath(g.file) == UNITS[0] and not g.is_lambda and
+                any(c.get("k") == "construct" and (c.get("fn") or "").endswith("directory_iterator::directory_iterator") and len(arg_nodes(c)) >= 2 for c in g.nodes)]
+    if len(enum_fns) < 2:
+        raise AnalysisBroken("directory enumerators: %d found (getContents, getFilteredContents expected)" % len(enum_fns))
+    n_tasks = 0
+    for g in enum_fns:
+        cls = g.cls
+        short = cls.split("::")[-1]
+        users = [m for m in prog.functions.values() if m.cls == cls and not m.is_lambda and any((c.get("fn") or "") == g.name or (c.get("fn") or "").endswith("::" + g.name.split("::")[-1]) for c in m.calls())]
+        if not users:
+            continue
+        n_tasks += 1
+        v = pairs.get(short)
+        if not v or len(v) != 1:
+            rr.violation("%s|rule" % short, "no unique rule creates %s (found %s)" % (short, v), g)
+            continue
+        v = list(v)[0]
+        if v == short:
+            isv = [m for m in users if m.name.endswith("::isResultValid")]
+            rr.check(bool(isv), "%s|validity-relists" % short, "", "the validity callback of %s does not enumerate the directory again" % short, g)
+        elif v == "null":
+            st = [m for m in prog.functions.values() if m.cls == cls and m.name.endswith("::start") and not m.is_lambda]
+            ok = len(st) == 1
+            stat_ids = []
+            if ok:
+                st = st[0]
+                rq = [c for c in st.calls("TaskInterface::request") if any((x.get("fn") or "").endswith("BuildKey::makeStat") for x in arg_nodes(c)[0].walk())]
+                ok = len(rq) == 1 and "path" in expr_plain(arg_nodes(rq[0])[0]) and \
+                    cfg.must_pass_through(st, cfg.entry_pos(st), lambda p_, e_: cfg.elem_node(st, e_) is rq[0])[0]
+                stat_ids = [core(arg_nodes(c)[1]).get("v") for c in rq]
+            rr.check(ok, "%s|depends-on-stat" % short, "", "%s has no validity callback and does not unconditionally request Stat(path): nothing re-lists the directory "
+                     "when only its contents change" % short, g)
+            # the value that decides (directory / missing / plain file) is the Stat value
+            pv = [m for m in prog.functions.values() if m.cls == cls and m.name.endswith("::provideValue") and not m.is_lambda]
+            okv = len(pv) == 1 and len(stat_ids) == 1
+            if okv:
+                bfp = BranchFacts(pv[0], kill="assign")
+                sto = [n for n in pv[0].nodes if n.get("k") in ("bin", "call") and n.get("op") == "=" and
+                       expr_plain(n.child("l") if n.get("k") == "bin" else n.child("obj")) == "directoryValue"]
+                okv = len(sto) == 1 and any(p_ and a_.replace(" ", "") in ("(inputID==%s)" % stat_ids[0], "(%s==inputID)" % stat_ids[0]) for a_, p_ in (bfp.at_node(sto[0]) or frozenset()))
+            rr.check(okv, "%s|decides-from-stat-value" % short, "", "the directory value %s decides from is not the one delivered for its Stat request" % short, g)
+        else:
+            rr.violation("%s|rule" % short, "unexpected validity callback %s" % v, g)
+    stv = prog.fn("StatTask::isResultValid")
+    rets = [x for x in stv.nodes if x.get("k") == "return"]
+    rr.check(len(rets) == 1 and core(rets[0].child("e")).get("v") is False, "StatTask::isResultValid|never-valid", "", "a Stat rule can be considered up to date", stv)
+    rr.check(pairs.get("StatTask") == {"StatTask"}, "lookupRule|Stat-uses-own-validity", "", "Stat rule validity is %s" % pairs.get("StatTask"), lk)
+    if n_tasks < 2:
+        raise AnalysisBroken("only %d enumerating tasks found" % n_tasks)
+
     r = rep.rule("R-LISTING-COMPARE", "directory-contents validity returns true only after comparing the length and every element of the current and stored "
                                       "listings; both listings are produced sorted by the same comparator", floor=4)
     f = prog.fn("DirectoryContentsTask::isResultValid")
@@ -174,6 +245,12 @@ def E_loop_of(f, n):
 
 
 VARIANTS = [
+    dict(name="filtered-listing-drops-stat-dependency", file="lib/BuildSystem/BuildSystem.cpp",
+         edits=[("    ti.request(BuildKey::makeStat(path).toData(), /*inputID=*/1);\n", ""), ("    if (inputID == 1) {\n      directoryValue = BuildValue::fromData(value);", "    if (inputID == 0) {\n      directoryValue = BuildValue::fromData(value);")],
+         expect=("R-LISTING-RESCAN", "depends-on-stat")),
+    dict(name="filtered-listing-decides-from-node-value", file="lib/BuildSystem/BuildSystem.cpp", old="    if (inputID == 1) {\n      directoryValue = BuildValue::fromData(value);", new="    if (inputID == 0) {\n      directoryValue = BuildValue::fromData(value);",
+         expect=("R-LISTING-RESCAN", "decides-from-stat-value")),
+    dict(name="stat-rule-valid-when-unchanged", file="lib/BuildSystem/BuildSystem.cpp", old="    // Always read the stat information\n    return false;", new="    // Always read the stat information\n    return true;", expect=("R-LISTING-RESCAN", "never-valid")),
     dict(name="content-sig-skips-child-values", file="lib/BuildSystem/BuildSystem.cpp",
          old="      // We merge the children by simply combining their encoded representation.\n      code = hash_combine(\n          code, hash_combine_range(info.value.begin(), info.value.end()));\n", new="",
          expect=("R-TREE-FOLD", "DirectoryTreeSignatureTask|child-value-folded")),
